@@ -14,7 +14,8 @@ import (
 // their interleavings. Natively the same bodies are run concurrently under `go test -race`.
 
 func vC17World() *vWorld {
-	vUseURLSet(0)
+	// no writes to harness globals here: natively these bodies run concurrently
+	const vURoot, vUSub, vUFar = "file:///w/root.json", "file:///w/sub/a.json", "file:///x/c.json"
 	w := &vWorld{root: vURoot, docs: map[string]string{}}
 	w.docs[vURoot] = `{"swagger":"2.0","info":{"title":"t","version":"1"},"paths":{},"definitions":{"A":{"description":"a","properties":{"x":{"$ref":"sub/a.json#/definitions/C%20d"}}},"B":{"description":"b","items":{"$ref":"#/definitions/A"}}}}`
 	w.docs[vUSub] = `{"definitions":{"C d":{"description":"c","items":{"$ref":"../../x/c.json#/definitions/D"}}}}`
